@@ -361,3 +361,47 @@ package literals
 //@     invariant @each-step-swaps-the-pair-and-encodes-both-with-the-local-key: i + 2 <= len(positions) - 2 && pi == i + 2 ==> data[positions[pi+1]] == spec.Eval(op, pa, byte(pi) + byte(positions[pi]^positions[pi+1]) + shiftKey) && (positions[pi] != positions[pi+1] ==> data[positions[pi]] == spec.Eval(op, pb, byte(pi) + byte(positions[pi]^positions[pi+1]) + shiftKey))
 //@     invariant @positions-stay-what-the-decoder-will-be-given: forall k int :: 0 <= k && k < len(positions) ==> positions[k] == entry(positions[k]) && 0 <= positions[k] && positions[k] < len(data)
 //@ end
+
+// ---- C05: the split obfuscator (partly) ----
+// The bytes are cut into chunks, every byte at global position o is encoded with key ^ byte(o), and the
+// emitted state machine appends the chunks in order and then decodes every byte y with the inverse
+// operator and byte(decryptKey ^ y). Proved here: each encoding step (encryptChunks); the state machine
+// starts at indexes[0], stops at the exit index, the decoding case is indexes[len-2] and jumps to the
+// exit, the decoding statement is data[y] = data[y] <inverse op> byte(decryptKey ^ y), and the emitted
+// initial key denotes decryptKeyInitial. Not proved: the chunk cases (their statements are shuffled) and
+// that the key folded here equals the key the emitted loop folds (i * counter over the visited cases).
+
+//@ func encryptChunks
+//@   property C05
+//@   intmode bv
+//@   spec ops.smt2
+//@   skip safety
+//@   ghost prevByte byte
+//@   loop 1
+//@     iter prevByte = chunk[i]
+//@     invariant @each-byte-is-encoded-with-the-key-xor-its-global-position: _i >= 1 ==> chunk[_i-1] == spec.Eval(op, prevByte, key ^ byte(byteOffset-1))
+//@ end
+
+//@ func shuffleStmts
+//@   property C05
+//@   trusted returns its arguments in a random order (rand.Shuffle with a swap of two elements): the same statements, nothing else changed
+//@   assigns elems(stmts)
+//@   ensures len(r0) == len(stmts) && ref(r0) == ref(stmts)
+//@ end
+
+//@ hookset splitobf
+//@ hook before mvdan.cc/garble/internal/literals.encryptChunks(ch, o, k)
+//@   assert("chunks-are-encoded-with-the-operator-whose-inverse-is-emitted-and-the-folded-key", o == op && k == decryptKey && ref(ch) == ref(chunks))
+//@ end
+
+//@ func (split).obfuscate
+//@   property C05
+//@   intmode bv
+//@   spec ops.smt2
+//@   hooks splitobf denote
+//@   requires len(data) >= 1 && len(extKeys) > 0
+//@   skip safety call-requires
+//@   ensures @state-machine-starts-at-the-first-index: r0 != nil && len(r0.List) == 4 && r0.List[1].(*ast.AssignStmt).Lhs[0].(*ast.Ident).Name == "i" && r0.List[1].(*ast.AssignStmt).Rhs[0].(*ast.BasicLit).Value == strconv.Itoa(indexes[0])
+//@   ensures @decoder-key-starts-from-the-initial-key: r0.List[2].(*ast.AssignStmt).Lhs[0].(*ast.Ident).Name == "decryptKey" && den[r0.List[2].(*ast.AssignStmt).Rhs[0].(*ast.CallExpr).Args[0]] == decryptKeyInitial
+//@   ensures @state-machine-stops-at-the-exit-index-and-folds-index-times-counter-into-the-key: dyntypeis(r0.List[3], *ast.ForStmt) && r0.List[3].(*ast.ForStmt).Cond.(*ast.BinaryExpr).Op == token.NEQ && r0.List[3].(*ast.ForStmt).Cond.(*ast.BinaryExpr).X.(*ast.Ident).Name == "i" && r0.List[3].(*ast.ForStmt).Cond.(*ast.BinaryExpr).Y.(*ast.BasicLit).Value == strconv.Itoa(indexes[len(indexes)-1]) && r0.List[3].(*ast.ForStmt).Body.List[0].(*ast.AssignStmt).Tok == token.XOR_ASSIGN && r0.List[3].(*ast.ForStmt).Body.List[0].(*ast.AssignStmt).Lhs[0].(*ast.Ident).Name == "decryptKey" && r0.List[3].(*ast.ForStmt).Body.List[0].(*ast.AssignStmt).Rhs[0].(*ast.BinaryExpr).Op == token.MUL && r0.List[3].(*ast.ForStmt).Body.List[0].(*ast.AssignStmt).Rhs[0].(*ast.BinaryExpr).X.(*ast.Ident).Name == "i" && r0.List[3].(*ast.ForStmt).Body.List[0].(*ast.AssignStmt).Rhs[0].(*ast.BinaryExpr).Y.(*ast.Ident).Name == "counter"
+//@ end
